@@ -218,7 +218,7 @@ Qed.
 Lemma do_write_R d s s' o : do_write d s = (s', o) -> R s s'.
 Proof.
   unfold do_write. intros H. destruct (closed s).
-  - apply raise_after_shutdown_spec in H; tauto.
+  - inv H. apply R_refl.
   - destruct (send_all (records s d) s) as [s1 e] eqn:S. pose proof (send_all_R _ _ _ _ S) as R1.
     destruct e; [apply raise_after_shutdown_spec in H; eapply R_trans; [exact R1|tauto]|inv H; exact R1].
 Qed.
@@ -304,26 +304,24 @@ Proof.
   unfold recv_item. destruct (inq s); intros H; inv H; [apply R_refl|apply set_inq_R].
 Qed.
 
-Lemma look_for_alert_spec s s' o : look_for_alert s = (s', o) ->
-  Rs s s' /\ (hs s' = true -> hs s = true) /\ (forall y, o = OExc y -> hs s' = false) /\ o <> OHsDone.
+Lemma look_for_alert_spec z s s' o : look_for_alert z s = (s', o) ->
+  Rs s s' /\ hs s' = false /\ (o = OBlocked \/ exists y, o = OExc y).
 Proof.
   unfold look_for_alert. intros H.
   destruct (recv_item s) as [s1 r] eqn:E. pose proof (recv_item_R _ _ _ E) as R1.
+  assert (forall x t, R s t -> hs_wrapper x t = (s', o) ->
+          Rs s s' /\ hs s' = false /\ (o = OBlocked \/ exists y, o = OExc y)) as W.
+  { intros x t Rt X. apply hs_wrapper_spec in X. destruct X as (A & B & (y & ->)).
+    split; [eapply Rs_trans; [apply R_Rs; exact Rt|exact A]|]. split; [exact B|]. right; eauto. }
   destruct r as [i|x| |].
   - destruct (shutdown false s1) as [s2 e] eqn:S. pose proof (shutdown_R _ _ _ _ S) as R2.
     assert (R s s2) as R12 by (eapply R_trans; [exact R1|exact R2]).
-    destruct e as [z|].
-    + apply hs_wrapper_spec in H. destruct H as (A & B & (y & ->)).
-      split; [eapply Rs_trans; [apply R_Rs; exact R12|exact A]|]. split; [congruence|]. split; [auto|discriminate].
-    + destruct i.
-      * inv H. split; [apply R_Rs; exact R12|]. split; [destruct R12 as (_ & _ & _ & ->); auto|]. split; discriminate.
-      * apply hs_wrapper_spec in H. destruct H as (A & B & (y & ->)).
-        split; [eapply Rs_trans; [apply R_Rs; exact R12|exact A]|]. split; [congruence|]. split; [auto|discriminate].
-      * inv H. split; [apply R_Rs; exact R12|]. split; [destruct R12 as (_ & _ & _ & ->); auto|]. split; discriminate.
-  - apply hs_wrapper_spec in H. destruct H as (A & B & (y & ->)).
-    split; [eapply Rs_trans; [apply R_Rs; exact R1|exact A]|]. split; [congruence|]. split; [auto|discriminate].
-  - inv H. split; [eapply Rs_trans; [apply R_Rs; exact R1|apply set_hs_Rs]|]. split; [cbn; discriminate|]. split; discriminate.
-  - inv H. split; [apply R_Rs; exact R1|]. split; [destruct R1 as (_ & _ & _ & ->); auto|]. split; discriminate.
+    destruct e as [z'|]; [eapply W; eauto|]. destruct i; eapply W; eauto.
+  - eapply W; eauto.
+  - inv H. split; [eapply Rs_trans; [apply R_Rs; exact R1|apply set_hs_Rs]|]. split; [reflexivity|]. left; reflexivity.
+  - exfalso. (* recv_item never returns Fuel *)
+    unfold recv_item, no_input in E. destruct (inq s); [|discriminate].
+    destruct (negb (sock_open s)); [discriminate|]. destruct (rxe s); discriminate.
 Qed.
 
 Ltac fin := unfold cfg_same in *; cbn in *;
@@ -354,7 +352,7 @@ Proof.
     destruct (send_rec (WHs ct) s) as [s1 e] eqn:E. pose proof (send_rec_R _ _ _ _ E) as (S1 & C1 & M1 & H1).
     destruct e as [z|].
     + destruct (ct =? 22).
-      * apply look_for_alert_spec in H. destruct H as ((S2 & C2 & M2) & B & D & F). fin.
+      * apply look_for_alert_spec in H. destruct H as ((S2 & C2 & M2) & B & [->|(y & ->)]); fin.
       * apply hs_wrapper_spec in H. destruct H as ((S2 & C2 & M2) & B & (y & ->)). fin.
     + inv H. fin.
   - inv H. fin.
@@ -414,7 +412,7 @@ Qed.
 
 Lemma do_write_exc d s s' x : do_write d s = (s', OExc x) -> closed s' = true.
 Proof.
-  unfold do_write. destruct (closed s); intros H; [apply raise_after_shutdown_spec in H; tauto|].
+  unfold do_write. destruct (closed s) eqn:C; intros H; [inv H; exact C|].
   destruct (send_all (records s d) s) as [s1 e]. destruct e; [apply raise_after_shutdown_spec in H; tauto|discriminate].
 Qed.
 
@@ -490,7 +488,7 @@ Proof.
     apply raise_after_shutdown_spec in H. destruct H as (_ & _ & (y & ->)). discriminate.
   - pose proof (do_write_R _ _ _ _ H) as (_ & _ & _ & E). split; [congruence|].
     unfold do_write in H. destruct (closed s).
-    + apply raise_after_shutdown_spec in H. destruct H as (_ & _ & (y & ->)). discriminate.
+    + inv H. discriminate.
     + destruct (send_all _ _) as [s1 e]. destruct e; [|inv H; discriminate].
       apply raise_after_shutdown_spec in H. destruct H as (_ & _ & (y & ->)). discriminate.
   - pose proof (do_close_R _ _ _ H) as (_ & _ & _ & E). split; [congruence|].
@@ -539,20 +537,14 @@ Proof.
   unfold shutdown, flush, shut. cbn. destruct cs, r; cbn; eexists; repeat split.
 Qed.
 
-Lemma write_when_shut d s : shut s -> exists s', do_write d s = (s', OExc XClosed) /\ shut s' /\
-  rbuf s' = rbuf s /\ wire s' = wire s /\ inq s' = inq s /\
-  sess s' = (if ign s then sess s else option_map (fun _ => false) (sess s)).
-Proof.
-  intros S. pose proof S as (C & _). unfold do_write. rewrite C.
-  destruct (shutdown_shut (ign s) s S) as (s' & E & S' & F).
-  exists s'. unfold raise_after_shutdown. rewrite E. tauto.
-Qed.
+Lemma write_when_shut d s : shut s -> do_write d s = (s, OExc XClosed).
+Proof. intros (C & _). unfold do_write. rewrite C. reflexivity. Qed.
 
 Lemma step_shut s ev s' o : shut s -> data_event ev -> step s ev = (s', o) ->
   shut s' /\ wire s' = wire s /\
   match ev with
   | URead _ _ => exists d, o = ORet d /\ d ++ rbuf s' = rbuf s /\ sess s' = sess s
-  | UWrite _ => o = OExc XClosed /\ sess s' = (if ign s then sess s else option_map (fun _ => false) (sess s))
+  | UWrite _ => o = OExc XClosed /\ s' = s
   | UClose => o = ODone /\ s' = s
   | _ => sess s' = sess s
   end.
@@ -561,7 +553,7 @@ Proof.
   - destruct (read_when_closed mx mn s C) as (n & E). rewrite E in H. inv H.
     split; [unfold shut; cbn; tauto|]. split; [reflexivity|].
     eexists; split; [reflexivity|]. cbn. split; [apply firstn_skipn|reflexivity].
-  - destruct (write_when_shut d s S) as (s1 & E & S1 & F). rewrite E in H. inv H. tauto.
+  - rewrite (write_when_shut d s S) in H. inv H. tauto.
   - unfold do_close in H. rewrite C in H. inv H. tauto.
   - inv H. unfold shut; cbn. tauto.
   - inv H. unfold shut; cbn. tauto.
@@ -591,21 +583,13 @@ Proof.
   - destruct (txf s); inv E; auto.
 Qed.
 
-(* reads on a shut connection hand out the buffered bytes in order and nothing else; the
-   session is only touched by writes, and then only when ignoreAbruptClose is off *)
-Definition no_write (ev : event) : Prop := match ev with UWrite _ => False | _ => data_event ev end.
-
-Lemma run_shut_session : forall evs s s' os, shut s -> Forall no_write evs -> run s evs = (s', os) ->
-  sess s' = sess s.
+(* on a shut connection no data call and no transport event touches the session *)
+Lemma step_shut_session s ev s' o : shut s -> data_event ev -> step s ev = (s', o) -> sess s' = sess s.
 Proof.
-  induction evs as [|ev evs IH]; intros s s' os S F H; cbn in H; [inv H; auto|].
-  destruct (step s ev) as [s1 o] eqn:E. destruct (run s1 evs) as [s2 os2] eqn:E2. inv H.
-  inversion F; subst.
-  assert (data_event ev) as D by (destruct ev; cbn in *; auto).
-  destruct (step_shut _ _ _ _ S D E) as (S1 & W1 & K).
-  rewrite (IH _ _ _ S1 H2 E2).
+  intros S D E. destruct (step_shut _ _ _ _ S D E) as (_ & _ & K).
   destruct ev; cbn in *; try contradiction; try tauto.
   - destruct K as (d & _ & _ & K). exact K.
+  - destruct K as (_ & ->). reflexivity.
   - destruct K as (_ & ->). reflexivity.
 Qed.
 
@@ -875,20 +859,24 @@ Proof.
   unfold contained, fault_exn. repeat split; eauto.
 Qed.
 
+Lemma off_off (a : option bool) : option_map (fun _ => false) (option_map (fun _ : bool => false) a) = option_map (fun _ => false) a.
+Proof. destruct a; reflexivity. Qed.
+
 (* a handshake-type record cannot be sent: the code looks at the next incoming record *)
 Lemma hs_send22_fault s e : hs s = true -> wq s = [] -> bufw s = false -> tx_dead s e ->
   match inq s with
   | [] => match rxe s with
-          | RxOpen => exists s', step s (UHs (HSend 22)) = (s', OBlocked) /\ hs s' = false
+          | RxOpen => (* half-open: only the send direction is dead, nothing has arrived: the code
+                         waits for the peer's next record (a possible alert) *)
+                      exists s', step s (UHs (HSend 22)) = (s', OBlocked) /\ hs s' = false
           | _ => exists s' o, step s (UHs (HSend 22)) = (s', o) /\ contained s s' o
           end
   | IAlert l d :: _ =>
       exists s', step s (UHs (HSend 22)) = (s', OExc (XRemote d)) /\ hs s' = false /\
                  (closed s' = true) /\ sess s' = option_map (fun _ => false) (sess s)
   | _ :: _ =>
-      (* the fault is swallowed: the step goes through and the handshake goes on *)
-      exists s', step s (UHs (HSend 22)) = (s', OStep) /\ hs s' = true /\ closed s' = true /\
-                 sess s' = option_map (fun _ => false) (sess s)
+      (* a non-alert record is waiting: the send failure itself is raised *)
+      exists s', step s (UHs (HSend 22)) = (s', OExc (XSock e)) /\ contained s s' (OExc (XSock e))
   end.
 Proof.
   intros HS Q B T. pose proof T as (SO & _). cbn [step]. unfold do_hs. rewrite HS. cbn [negb].
@@ -903,11 +891,38 @@ Proof.
   - destruct (shutdown false (set_inq rest s)) as [s2 e2] eqn:S.
     pose proof (shutdown_spec _ _ _ _ S) as (C2 & (_ & _ & _ & H2) & _ & _ & _ & _ & _ & _ & SE2 & QQ & _).
     destruct (QQ Q) as (-> & Q2). cbn in H2. specialize (SE2 eq_refl eq_refl). cbn in SE2.
+    assert (exists s', hs_wrapper (XSock e) s2 = (s', OExc (XSock e)) /\ contained s s' (OExc (XSock e))) as K.
+    { destruct (wrapper_off (XSock e) s2 Q2) as (s' & E & H & _ & SE & C). exists s'. split; [exact E|].
+      unfold contained, fault_exn. repeat split; eauto. rewrite SE, SE2. apply off_off. }
     destruct i as [d|l d|b].
-    + exists s2. repeat split; auto; congruence.
+    + exact K.
     + destruct (wrapper_off (XRemote d) s2 Q2) as (s' & E & H & CC & SE). exists s'. rewrite E.
       repeat split; auto. congruence.
-    + exists s2. repeat split; auto; congruence.
+    + exact K.
+Qed.
+
+(* FULL statement for sends: the transport is dead (send fails for good, receive side ended);
+   whatever record type is being sent and whatever has arrived before, the call raises, the
+   handshake is over, the connection closed, the session not resumable; the exception is the
+   abrupt-close / socket error, or the peer's alert when one was waiting *)
+Lemma hs_send_contained s e ct : hs s = true -> wq s = [] -> bufw s = false -> tx_dead s e -> rxe s <> RxOpen ->
+  exists s' o, step s (UHs (HSend ct)) = (s', o) /\ hs s' = false /\ closed s' = true /\
+    sess s' = option_map (fun _ => false) (sess s) /\
+    ((exists x, o = OExc x /\ fault_exn x) \/
+     (exists l d rest, ct = 22 /\ inq s = IAlert l d :: rest /\ o = OExc (XRemote d))).
+Proof.
+  intros HS Q B T RX. destruct (Z.eq_dec ct 22) as [->|NE].
+  - pose proof (hs_send22_fault s e HS Q B T) as K.
+    destruct (inq s) as [|i rest] eqn:I.
+    + destruct (rxe s) eqn:RXE; [congruence| |];
+        destruct K as (s' & o & E & (X & H & C & SE)); exists s', o; repeat split; auto.
+    + destruct i as [d|l d|b].
+      * destruct K as (s' & E & (X & H & C & SE)). exists s', (OExc (XSock e)). repeat split; auto.
+      * destruct K as (s' & E & H & C & SE). exists s', (OExc (XRemote d)). repeat split; auto.
+        right. exists l, d, rest. auto.
+      * destruct K as (s' & E & (X & H & C & SE)). exists s', (OExc (XSock e)). repeat split; auto.
+  - destruct (hs_send_fault s ct e HS Q B T NE) as (s' & E & (X & H & C & SE)).
+    exists s', (OExc (XSock e)). repeat split; auto.
 Qed.
 
 (* a write that hits the dead transport on its first record *)
@@ -943,28 +958,23 @@ Proof.
 Qed.
 
 (* ---- orderly close, then anything but a write or a new handshake ------------------------- *)
-Lemma shut_continuation : forall evs s1 s2 os, shut s1 -> Forall no_write evs -> run s1 evs = (s2, os) ->
+Lemma shut_continuation : forall evs s1 s2 os, shut s1 -> Forall data_event evs -> run s1 evs = (s2, os) ->
       closed s2 = true /\ sess s2 = sess s1 /\ wire s2 = wire s1 /\
-      Forall (fun o => (exists d, o = ORet d) \/ o = ODone \/ o = OStep \/ o = ONone) os /\
-      (rbuf s1 = [] -> Forall (fun o => forall d, o = ORet d -> d = []) os) /\
-      forall d, exists s3, step s2 (UWrite d) = (s3, OExc XClosed) /\ closed s3 = true.
+      Forall (fun o => (exists d, o = ORet d) \/ o = OExc XClosed \/ o = ODone \/ o = OStep \/ o = ONone) os /\
+      (rbuf s1 = [] -> Forall (fun o => forall d, o = ORet d -> d = []) os).
 Proof.
   induction evs as [|ev evs IH]; intros s1 s2 os S1 F H; cbn in H.
-  - inv H. repeat split; auto; try apply S1. intros d.
-    destruct (write_when_shut d s2 S1) as (s3 & E & S3 & _). exists s3. split; [exact E|apply S3].
+  - inv H. repeat split; auto; try apply S1.
   - destruct (step s1 ev) as [sa o] eqn:E. destruct (run sa evs) as [sb osb] eqn:E2. inv H.
-    inversion F; subst.
-    assert (data_event ev) as D by (destruct ev; cbn in *; auto).
+    inversion F as [|? ? D H2]; subst.
     destruct (step_shut _ _ _ _ S1 D E) as (Sa & Wa & K).
-    assert (sess sa = sess s1) as SEa.
-    { destruct ev; cbn in *; try contradiction; try tauto.
-      - destruct K as (d & _ & _ & K); exact K.
-      - destruct K as (_ & ->); reflexivity. }
-    destruct (IH sa _ _ Sa H2 E2) as (Cb & SEb & Wb & Fb & Eb & Wr).
+    pose proof (step_shut_session _ _ _ _ S1 D E) as SEa.
+    destruct (IH sa _ _ Sa H2 E2) as (Cb & SEb & Wb & Fb & Eb).
     repeat split; auto; try congruence.
     + constructor; [|exact Fb].
       destruct ev; cbn in E; try contradiction; try (inv E; auto; fail).
       * destruct K as (d & -> & _). left; eauto.
+      * destruct K as (-> & _). auto.
       * destruct K as (-> & _). auto.
       * destruct (rx_open s1 && sock_open s1); inv E; auto.
       * destruct (rx_open s1); inv E; auto.
@@ -974,6 +984,7 @@ Proof.
       { destruct ev; cbn in E; try contradiction; try (inv E; split; [auto|discriminate]; fail).
         - destruct K as (d & -> & K & _). rewrite RB in K. apply app_eq_nil in K. destruct K as (-> & ->).
           split; [reflexivity|]. intros d E'. inv E'. reflexivity.
+        - destruct K as (-> & ->). split; [exact RB|discriminate].
         - destruct K as (-> & ->). split; [exact RB|discriminate].
         - destruct (rx_open s1 && sock_open s1); inv E; (split; [auto|discriminate]).
         - destruct (rx_open s1); inv E; (split; [auto|discriminate]).
@@ -988,17 +999,16 @@ Lemma after_close_notify_lemma s l rest mx mn :
   exists s1, step s (URead mx mn) = (s1, ORet (firstn (take_n mx (rbuf s)) (rbuf s))) /\
     closed s1 = true /\ sess s1 = sess s /\
     (sock_open s = true -> txf s = None -> wire s1 = wire s ++ [WAlert 1 0]) /\
-    forall evs s2 os, Forall no_write evs -> run s1 evs = (s2, os) ->
+    forall evs s2 os, Forall data_event evs -> run s1 evs = (s2, os) ->
       closed s2 = true /\ sess s2 = sess s /\ wire s2 = wire s1 /\
-      Forall (fun o => (exists d, o = ORet d) \/ o = ODone \/ o = OStep \/ o = ONone) os /\
-      (rbuf s1 = [] -> Forall (fun o => forall d, o = ORet d -> d = []) os) /\
-      forall d, exists s3, step s2 (UWrite d) = (s3, OExc XClosed) /\ closed s3 = true.
+      Forall (fun o => (exists d, o = ORet d) \/ o = OExc XClosed \/ o = ODone \/ o = OStep \/ o = ONone) os /\
+      (rbuf s1 = [] -> Forall (fun o => forall d, o = ORet d -> d = []) os).
 Proof.
   intros C HS Q B I Hc.
   destruct (read_close_notify s l rest mx mn C Q B I Hc) as (s1 & E & C1 & SE1 & RB1 & IQ1 & Q1 & B1 & H1 & W1).
   exists s1. repeat split; auto;
   assert (shut s1) as S1 by (unfold shut; repeat split; auto; congruence);
-  destruct (shut_continuation evs s1 s2 os S1 H H0) as (A1 & A2 & A3 & A4 & A5 & A6); auto; congruence.
+  destruct (shut_continuation evs s1 s2 os S1 H H0) as (A1 & A2 & A3 & A4 & A5); auto; congruence.
 Qed.
 
 (* ---- the fuel of the loops always suffices --------------------------------------------------- *)
@@ -1112,7 +1122,7 @@ Proof.
     destruct r; cbn; try discriminate; [|congruence].
     unfold raise_after_shutdown. destruct (shutdown false s1). cbn. discriminate.
   - unfold do_write, raise_after_shutdown. destruct (closed s).
-    + destruct (shutdown _ _). cbn. discriminate.
+    + cbn. discriminate.
     + destruct (send_all _ _) as [s1 e]. destruct e; [destruct (shutdown _ _)|]; cbn; discriminate.
   - unfold do_close, close_forgive, raise_after_shutdown. destruct (closed s); [cbn; discriminate|].
     destruct (_ =? 0); [|cbn; discriminate].
@@ -1136,10 +1146,7 @@ Proof.
       destruct r; try (inv E; discriminate); [eapply W; eauto|congruence].
     + destruct (send_rec _ _) as [s1 e]. destruct e; [|inv E; discriminate].
       destruct (ct =? 22); [|eapply W; eauto].
-      unfold look_for_alert, recv_item in E. destruct (inq s1).
-      * unfold no_input in E. destruct (negb _); [eapply W; exact E|]. destruct (rxe s1); [inv E; discriminate|eapply W; exact E|eapply W; exact E].
-      * destruct (shutdown false _) as [s2 e2]. destruct e2; [eapply W; eauto|].
-        destruct i; inv E; discriminate.
+      apply look_for_alert_spec in E. destruct E as (_ & _ & [->|(y & ->)]); discriminate.
     + inv E; discriminate.
     + destruct (flush s) as [s1 e]. destruct e; [eapply W; eauto|inv E; discriminate].
     + inv E; discriminate.
@@ -1150,13 +1157,10 @@ Proof.
   - destruct (txf s); cbn; discriminate.
 Qed.
 
-(* ---- statements that are false of the faithful model: witnesses --------------------------- *)
-(* Full statement of "a transport fault at any step of a handshake is contained". *)
-Definition transport_fault_contained_full : Prop :=
-  forall s e ct, hs s = true -> closed s = true -> wq s = [] -> bufw s = false -> tx_dead s e ->
-    (forall l d rest, inq s <> IAlert l d :: rest) ->
-    exists s' o, step s (UHs (HSend ct)) = (s', o) /\ (contained s s' o \/ o = OBlocked).
-
+(* ---- the two histories that refuted the full statements before the fixes in /repo ---------- *)
+(* Before /repo 0ab9df1 (_sendMsgThroughSocket fell through when the waiting record was not an
+   alert) this script ended in [...; OStep; OHsDone] with closed = false on a closed socket, and
+   "transport_fault_contained_refuted : ~ transport_fault_contained_full" was the theorem. *)
 Definition swallow_script : list event :=
   [UHsStart; NIn (IHs false); UHs HRecv; UHs (HSend 22); NIn (IHs false); UHs HRecv; UHs (HSetSess true);
    NIn (IData [71; 69; 84]);              (* the peer's first application data, already buffered *)
@@ -1164,47 +1168,21 @@ Definition swallow_script : list event :=
    UHs (HSend 22);                        (* the server's NewSessionTicket record *)
    UHs HDone].
 
-Lemma swallow_witness :
+Lemma swallow_script_contained :
   let '(s', os) := run (init false true true false 16384) swallow_script in
-  os = [OStep; ONone; OStep; OStep; ONone; OStep; OStep; ONone; ONone; ONone; OStep; OHsDone] /\
-  closed s' = false /\ sock_open s' = false /\ sess s' = Some false /\ inq s' = [].
+  os = [OStep; ONone; OStep; OStep; ONone; OStep; OStep; ONone; ONone; ONone; OExc (XSock 32); ONone] /\
+  closed s' = true /\ hs s' = false /\ sock_open s' = false /\ sess s' = Some false.
 Proof. vm_compute. repeat split. Qed.
 
-Lemma transport_fault_contained_not_full : ~ transport_fault_contained_full.
-Proof.
-  intros F.
-  pose (s := fst (run (init false true true false 16384) (firstn 10 swallow_script))).
-  destruct (F s 32 22) as (s' & o & E & K); try (vm_compute; auto; fail).
-  - vm_compute. split; [reflexivity|]. exists 0. split; [reflexivity|]. intros X; discriminate X.
-  - intros l d rest. vm_compute. discriminate.
-  - vm_compute in E. inv E. destruct K as [((x & X & _) & _)|X]; discriminate.
-Qed.
-
-(* Full statement of "after an orderly close ... the session stays resumable", for every
-   continuation made of data calls and transport events. *)
-Definition after_close_notify_full : Prop :=
-  forall s l rest mx mn, closed s = false -> hs s = false -> wq s = [] -> bufw s = false ->
-    inq s = IAlert l 0 :: rest -> (zlen (rbuf s) <? mn) || is_nil (rbuf s) = true ->
-    forall evs, Forall data_event evs ->
-      sess (fst (run s (URead mx mn :: evs))) = sess s.
-
+(* Before /repo 8b57b65 (writeAsync's handler ran _shutdown(ignoreAbruptClose) also for the
+   closed-connection error) this history ended with sess = Some false, and
+   "after_close_notify_refuted : ~ after_close_notify_full" was the theorem. *)
 Definition est0 : st := mkst false false 1 (Some true) false true false false 16384 true false [] [] [] RxOpen None [].
 
-Lemma write_after_close_witness :
+Lemma write_after_close_history :
   let '(s', os) := run est0 [NIn (IAlert 1 0); URead None 1; UWrite [119]] in
-  os = [ONone; ORet []; OExc XClosed] /\ closed s' = true /\ sess s' = Some false.
+  os = [ONone; ORet []; OExc XClosed] /\ closed s' = true /\ sess s' = Some true.
 Proof. vm_compute. repeat split. Qed.
-
-Definition est_cn : st :=
-  mkst false false 1 (Some true) false true false false 16384 true false [] [] [IAlert 1 0] RxOpen None [].
-
-Lemma after_close_notify_not_full : ~ after_close_notify_full.
-Proof.
-  intros F.
-  assert (sess (fst (run est_cn [URead None 1; UWrite [119]])) = sess est_cn) as E.
-  { apply (F est_cn 1 [] None 1); try reflexivity. constructor; [exact I|constructor]. }
-  vm_compute in E. discriminate E.
-Qed.
 
 (* example states meeting the hypotheses used above *)
 Definition ex_open_cn : st := fst (run est0 [NIn (IData [1; 2]); NIn (IAlert 1 0)]).
